@@ -26,6 +26,13 @@ type inliner struct {
 	body    map[*ast.CallExpr]*ast.BlockStmt
 	exp     map[ast.Expr]ast.Expr
 	asValue bool
+	// hoistEffects: an argument that is a call (not a conversion or a builtin) is evaluated once,
+	// before the helper's body, into a temporary the parameter then stands for — as the language does —
+	// instead of being copied to every use of the parameter (where it would seem to run under the
+	// helper's conditions, or twice)
+	hoistEffects bool
+	nTemp        int
+	hoisted      map[*ast.CallExpr]bool // argument calls that were moved in front of a followed helper's body
 }
 
 func newInliner(p *core.Program, fi *core.FuncInfo, skip func(fn *types.Func) bool) *inliner {
@@ -143,6 +150,26 @@ func (in *inliner) Body(call *ast.CallExpr) *ast.BlockStmt {
 								repl[obj] = ret
 							}
 							in.body[ac] = nil
+						} else if in.hoistEffects {
+							pure := false
+							if tv, ok := info.Types[ac.Fun]; ok && tv.IsType() {
+								pure = true
+							}
+							if fid, ok := ac.Fun.(*ast.Ident); ok {
+								if _, isB := info.Uses[fid].(*types.Builtin); isB {
+									pure = true
+								}
+							}
+							if obj := info.Defs[n]; obj != nil && !pure {
+								in.nTemp++
+								tmp := ast.NewIdent(fmt.Sprintf("zzarg%d", in.nTemp))
+								prefix = append(prefix, &ast.AssignStmt{Lhs: []ast.Expr{tmp}, Tok: token.DEFINE, TokPos: ac.Pos(), Rhs: []ast.Expr{ac}})
+								repl[obj] = tmp
+								if in.hoisted == nil {
+									in.hoisted = map[*ast.CallExpr]bool{}
+								}
+								in.hoisted[ac] = true
+							}
 						}
 					}
 				}
@@ -452,6 +479,10 @@ func (in *inliner) boolLocalDef(id *ast.Ident) ast.Expr {
 		return nil
 	}
 	if b, ok := obj.Type().Underlying().(*types.Basic); !ok || b.Kind() != types.Bool {
+		return nil
+	}
+	// a named result starts as false without a statement saying so: one assignment is its second value
+	if isNamedResult(in.p, obj) {
 		return nil
 	}
 	var def ast.Expr
@@ -1089,4 +1120,28 @@ func helperResults(p *core.Program, info *types.Info, call *ast.CallExpr) []ast.
 		out = append(out, sub)
 	}
 	return out
+}
+
+
+// isNamedResult: obj is a named result of some function of the module.
+func isNamedResult(p *core.Program, obj types.Object) bool {
+	if p == nil || obj == nil {
+		return false
+	}
+	for _, fi := range p.Funcs {
+		if fi.Pkg == nil || fi.Pkg.Types != obj.Pkg() || fi.Decl.Type.Results == nil {
+			continue
+		}
+		if obj.Pos() < fi.Decl.Pos() || obj.Pos() > fi.Decl.End() {
+			continue
+		}
+		for _, f := range fi.Decl.Type.Results.List {
+			for _, n := range f.Names {
+				if fi.Pkg.TypesInfo.Defs[n] == obj {
+					return true
+				}
+			}
+		}
+	}
+	return false
 }
